@@ -69,6 +69,39 @@ func checkC08(c *Ctx) {
 				bad = append(bad, p.Pos(r.Pos()))
 			}
 		}
+		// and the quorum's timeouts become a certificate unless building it failed
+		if rtr := p.Method("protocol/synchronizer", t, "RemoteTimeoutRule"); rtr != nil {
+			frr := NewFlow(p, rtr)
+			var badR []string
+			for _, r := range returnsOf(rtr) {
+				if !frr.Reachable(r.Block()) || len(r.Results) != 2 {
+					continue
+				}
+				refuses := false
+				for _, lf := range leaves(frr, retValue(r, 1), r) {
+					if !isNilConst(lf.Val) {
+						refuses = true
+					}
+				}
+				if !refuses {
+					continue
+				}
+				failed := func(f Fact) bool {
+					return f.Op == "!=" && oneIsNil(f) && strings.HasSuffix(nonNil(f), "#1") && (strings.Contains(nonNil(f), ".CreateTimeoutCert(") || strings.Contains(nonNil(f), ".CreateAggregateQC("))
+				}
+				ok := branchDominates(frr, r, failed)
+				for f := range frr.At(r) {
+					if failed(f) {
+						ok = true
+					}
+				}
+				if !ok {
+					badR = append(badR, p.Pos(r.Pos()))
+				}
+			}
+			c.Check(len(badR) == 0, "C08.10", t+".RemoteTimeoutRule: refuses only when the certificate could not be built", p.FuncPos(rtr),
+				"an error is returned only under a failed CreateTimeoutCert / CreateAggregateQC", "an error is returned at "+join(badR)+" although the certificates were built: a quorum of timeouts never becomes a timeout certificate")
+		}
 		c.Check(len(bad) == 0, "C08.10", t+".LocalTimeoutRule: refuses only when signing failed", p.FuncPos(ltr),
 			itoa(nErr)+" error return(s), each under a failed auth.Sign", "an error is returned at "+join(bad)+" although signing did not fail: the replica never sends its timeout, and with f such replicas no view ever times out")
 	}
@@ -118,6 +151,21 @@ func checkC08(c *Ctx) {
 				}
 			}
 		}
+		// and it is the sender's own signature: the aggregate QC is checked per signer id against the message that
+		// signer is recorded with, so a message signature made by someone else voids the aggregate for the whole view
+		wb := c08UnboundMsgSigPath(fl, pathTarget, "p1")
+		if wb != "" && ds.Via != nil {
+			if cal := ds.Via.Common().StaticCallee(); cal != nil && ds.Site.Parent() == cal {
+				for i, a := range ds.Via.Common().Args {
+					if ak := fl.K.Key(a); ak == "p1" || ak == "*&[p1]" {
+						wb = c08UnboundMsgSigPath(NewFlow(p, cal), ds.Site, "p"+itoa(i))
+					}
+				}
+			}
+		}
+		c.Check(wb == "", "C08.2/binding-msg", "OnRemoteTimeout: message signature signer = sender", p.Pos(s.Pos()),
+			"every path to add on which aggregate QCs may be enabled passes the test that timeout.MsgSignature is signed by timeout.ID only",
+			"path to add with aggregate QCs possibly enabled on which the message signature's signer is not tied to the sender ("+wb+")")
 		c.Check(w == "", "C08.8", "OnRemoteTimeout: MsgSignature verified before it can be combined", p.Pos(s.Pos()),
 			"every path to add on which aggregate QCs may be enabled passes auth.Verify(timeout.MsgSignature, timeout.ToBytes()) == nil",
 			"path to add with aggregate QCs possibly enabled and timeout.MsgSignature never verified ("+w+"): CreateAggregateQC combines it unverified, one bad or absent message signature voids TC and AggQC together")
@@ -1049,4 +1097,21 @@ func c08InPlaceFilter(p *Prog, fn *ssa.Function) *c08Filter {
 	}
 	c08FilterMemo[fn] = out
 	return out
+}
+
+// c08UnboundMsgSigPath: "" if every path to addCall crosses "aggregate QCs disabled" or a true verdict of a boolean
+// function of the package applied to (timeout.MsgSignature, timeout.ID) (signedOnlyBy), else a description of an open path.
+func c08UnboundMsgSigPath(fl *Flow, addCall ssa.CallInstruction, tmo string) string {
+	closes := func(fs []Fact) bool {
+		for _, f := range fs {
+			if f.Op == "false" && strings.HasPrefix(f.L, kHasAggQC) {
+				return true
+			}
+			if f.Op == "true" && strings.Contains(f.L, "("+tmo+"."+kTOMsg+"MsgSignature, "+tmo+"."+kTOMsg+"ID)") {
+				return true
+			}
+		}
+		return false
+	}
+	return openPathTo(fl, addCall, closes)
 }
